@@ -677,10 +677,12 @@ func (rc *RegClient) imageCopyOpt(ctx context.Context, refSrc ref.Ref, refTgt re
 					// known blob media type
 					err = rc.imageCopyBlob(ctx, entrySrc, entryTgt, dEntry, opt, bOpt...)
 				default:
-					// unknown media type, first try an image copy
-					err = rc.imageCopyOpt(ctx, entrySrc, entryTgt, dEntry, true, parentsNew, opt)
-					if err != nil {
-						// fall back to trying to copy a blob
+					// unknown media type, an entry the source serves as a manifest is copied as an image, anything else as a blob
+					if _, errM := rc.ManifestGet(ctx, entrySrc, WithManifestDesc(dEntry)); errM == nil {
+						err = rc.imageCopyOpt(ctx, entrySrc, entryTgt, dEntry, true, parentsNew, opt)
+					} else if ctx.Err() != nil {
+						err = ctx.Err()
+					} else {
 						err = rc.imageCopyBlob(ctx, entrySrc, entryTgt, dEntry, opt, bOpt...)
 					}
 				}
